@@ -241,10 +241,10 @@ def r5_debug_assert(text: str) -> Tuple[str, int]:
                 def tx(a):
                     return text[a[0].start:a[-1].end]
                 if t.text == "debug_assert":
-                    rep = "{ let dbg__c = " + tx(args[0]) + "; assert(dbg__c); }"
+                    rep = "if true { let dbg__c = " + tx(args[0]) + "; assert(dbg__c); }"
                 else:
                     op = "==" if t.text == "debug_assert_eq" else "!="
-                    rep = "{ let dbg__l = " + tx(args[0]) + "; let dbg__r = " + tx(args[1]) + f"; assert(dbg__l {op} dbg__r); }}"
+                    rep = "if true { let dbg__l = " + tx(args[0]) + "; let dbg__r = " + tx(args[1]) + f"; assert(dbg__l {op} dbg__r); }}"
                 return _apply(text, [(t.start, end, rep)]), 1
         return text, 0
     return _fix(text, step)
@@ -265,7 +265,9 @@ def r6_panics(text: str) -> Tuple[str, int]:
             if t.kind == "ident" and t.text in ("panic", "unreachable", "todo", "unimplemented") \
                     and i + 2 < len(T) and T[i + 1].text == "!" and T[i + 2].text in "([{":
                 cb = match_close(T, i + 2)
-                edits.append((t.start, T[cb].end, "unreached()"))
+                # in statement position (`panic!(..);`) the result type cannot be inferred: it is ()
+                stmt = cb + 1 < len(T) and T[cb + 1].text == ";"
+                edits.append((t.start, T[cb].end, "unreached::<()>()" if stmt else "unreached()"))
             if t.kind == "ident" and t.text == "expect" and i > 0 and T[i - 1].text == "." and T[i + 1].text == "(":
                 cb = match_close(T, i + 1)
                 edits.append((t.start, T[cb].end, "unwrap()"))
